@@ -47,7 +47,7 @@ def configs(tier, seed):
     out = []
     # (addr width, data width, granularity): ratios 1, 2, 4 and the non-powers-of-two 3, 6, 5
     geos = [(4, 8, 8), (4, 16, 8), (5, 32, 8), (3, 8, 8), (4, 32, 16), (6, 16, 16), (4, 24, 8), (5, 48, 8), (4, 12, 4),
-            (4, 40, 8), (12, 32, 8), (16, 8, 8), (4, 1, 1), (4, 4, 1), (3, 2, 2), (1, 8, 8)]
+            (4, 40, 8), (12, 32, 8), (16, 8, 8), (4, 1, 1), (4, 4, 1), (3, 2, 2), (1, 8, 8), (60, 32, 8), (62, 16, 8)]
     n_cfg = 160 if tier == "quick" else 1800
     while len(out) < n_cfg:
         aw, dw, g = rnd.choice(geos)
